@@ -41,7 +41,7 @@ KERNELS = {
     "C36": ["k_comment_dispatch", "k_module_init"],
     "C37": ["k_do_use_prefix", "k_use_with"],
     "C18": ["k_formal_args_eval"],
-    "C21": ["k_error_and_drop"],
+    "C21": ["k_error_and_drop", "k_dest_start"],
     "C26": ["k_str_slice", "k_str_insert", "k_str_index_length"],
     "C29": ["k_math_bounding", "k_math_percentage", "k_math_clamp", "k_find_extreme"],
     "C28": ["k_index_of", "k_set_nth", "k_append_join", "k_list_separator", "k_list_index"],
@@ -463,6 +463,14 @@ STRUCTURAL_PROBES["k_use_with"] = {
         (({"a.scss": '@use "lib" with ($v: 1);\nx { y: lib.$v }\n', "_lib.scss": "$v: 2;\n"}, "a.scss"), "<error>"),
     ],
 }
+STRUCTURAL_PROBES["k_dest_start"] = [
+    ("a { @supports (x: y) { b: c; @media screen { d: e } } }", "b: c"),
+    ("a { @supports (x: y) { b: c; @media screen { d: e } f: g } }", "f: g"),
+    ("a { b: c; @media screen { d: e } f: g }", "a { b: c; } @media screen { a { d: e; } } a { f: g; }"),
+    ("a { @media screen { b: c; @supports (x: y) { d: e } } }", "b: c"),
+    ("a { @foo bar { b: c; @media screen { d: e } } }", "b: c"),
+    ("a { @media screen { b: c; @media (min-width: 1px) { d: e } } }", "b: c"),
+]
 STRUCTURAL_PROBES["k_module_init"] = [
     (({"a.scss": '@use "lib";\n.main { c: d }\n', "_lib.scss": "/* hello */\n.lib { /* in rule */ a: b }\n"}, "[compressed]a.scss"), ".lib{a:b}.main{c:d}"),
     (({"a.scss": '@use "lib";\n.main { c: d }\n', "_lib.scss": "/* hello */\n.lib { a: b }\n"}, "a.scss"), "/* hello */ .lib { a: b; } .main { c: d; }"),
